@@ -84,6 +84,10 @@ def curated():
     a(mk('hyb2pm', ['A', 'B'], {'A': 'hy', 'B': 'hy'}, [('A', 'B', {'o': 'p', 'i': 'm'}), ('A', 'B', {'o': 'e', 'i': 't'})],
          tags=['trigger', 'data']))
     a(mk('ev2', ['A', 'B'], {'A': 'ev', 'B': 'ev'}, [('A', 'B')], init={'A': 0}, tags=['trigger']))
+    # initial events for simulators that also have their step at time 0, and several initial events for one simulator
+    a(mk('hyb2_init', ['A', 'B'], {'A': 'hy', 'B': 'hy'}, [('A', 'B')], init={'A': 1, 'B': 2}, tags=['trigger', 'init']))
+    a(mk('tb_ev_init', ['A', 'B'], {'A': 'tb', 'B': 'ev'}, [('A', 'B')], init={'A': 2, 'B': 1}, tags=['trigger', 'init']))
+    a(mk('ev2_init2', ['A', 'B'], {'A': 'ev', 'B': 'ev'}, [('A', 'B')], init={'A': [0, 2], 'B': [1]}, tags=['trigger', 'init']))
     a(mk('evloop', ['A', 'B'], {'A': 'ev', 'B': 'ev'}, [('A', 'B'), ('B', 'A', {'k': 'sym'})], init={'A': 0},
          tags=['trigger', 'cycle']))
     a(mk('tb_ev', ['A', 'B'], {'A': 'tb', 'B': 'ev'}, [('A', 'B')], tags=['trigger', 'data']))
